@@ -997,6 +997,8 @@ func GenLong(r *rand.Rand, id string) *Case {
 			rhs = append(rhs, ts[r.Intn(len(ts))])
 		}
 	}
+	// positions 1 and 10 hold two different tokens (so that $1 and $10 can carry different value tags)
+	rhs[0], rhs[9] = "a", "b"
 	c.Rules = append(c.Rules, Rule{Lhs: "S", Rhs: rhs})
 	c.Rules = append(c.Rules, Rule{Lhs: "S", Rhs: []string{ts[r.Intn(4)], "A"}})
 	c.Rules = append(c.Rules, Rule{Lhs: "A", Rhs: []string{ts[r.Intn(4)]}})
